@@ -18,6 +18,11 @@
       the real Start (topic ids) → Assigned → consume → Commit path; topic list with duplicates, topics
       and marks by name id. Model: topicID (last position wins) / Topics[index] / commitStarted.
 
+  c10.stop  <ntopics> <name>… <nrec> (<name> <part> <offset> <epoch>)… <nfinish> <i>…
+            | <nrec> (<sourceID> <offset>)… <regress> <k> (<name> <part> <epoch> <offset>)*k
+      real Start, real group join / fetch against an in-process broker, real Commit of the finish list,
+      real Stop; the offsets the broker holds afterwards. Model: the marks. P: Spec.verdict on them.
+
   c10.pipe  <procs> <async> <capacity> <ntopics> <nrec> (<topic> <part> <offset> <epoch> <discard>)… <nchoice> <c>…
             | <nops> op…   with op = in <i> <stream> <sourceID> <offset> | out <i> | drop <i>
                                      | ack <i> <k> (<topic> <part> <epoch> <offset>)*k
@@ -282,12 +287,60 @@ def handleStart (args impl : List String) : Option (String × String) := do
     pure (m, p)
   | [] => none
 
+/-! ### c10.stop -/
+
+/-- model of start … finish … Stop: source id per record, no lowered commit, and the broker ends up
+    holding exactly the marks (`CommitMarkedOffsets` commits every marked head) -/
+def stopModel (topics : List Int) (recs : List Rec) (finish : List Nat) : Option String := do
+  let sids ← recs.mapM (startedSourceID topics)
+  let packed := sids.zip (recs.map packOffset)
+  let rec go : Marks → List Nat → Option Marks
+    | m, [] => some m
+    | m, i :: is => do
+      let (sid, off) ← packed[i]?
+      let m' ← commitStarted topics m sid off
+      go m' is
+  let m ← go [] finish
+  pure (unwords ([toString recs.length] ++ packed.flatMap (fun x => [toString x.1.toNat, toString x.2.toInt])
+      ++ ["0", encMarks m]))
+
+def handleStop (args impl : List String) : Option (String × String) := do
+  let (topics, r0) ← listOf int? args
+  match r0 with
+  | nr :: rest =>
+    let n ← nat? nr
+    let (rs, r1) ← parseRecs 0 n rest
+    let recs := rs.map (·.1)
+    let (finish, r2) ← listOf nat? r1
+    if r2 ≠ [] then none
+    if finish.any (· ≥ recs.length) then none
+    let m := (stopModel topics recs finish).getD "panic:bounds"
+    let allIn := recs.all (fun r => SpecC10.inRange 0 r.part r.offset r.epoch && topics.contains r.topic)
+                 && decide (topics.length < 2 ^ 48)
+    -- the oracle: what the broker holds after Stop, against consumed = all records, finished = the list
+    let p := match impl with
+      | k :: irest =>
+        if k.startsWith "panic" then (if allIn then "fail:panic" else "ok") else
+        if nat? k ≠ some recs.length then "bad-impl" else
+        match irest.drop (2 * recs.length) with
+        | regress :: mrest =>
+          match parseMarkList mrest with
+          | some (obs, []) =>
+            if !allIn then "ok" else
+            if regress ≠ "0" then "fail:regress" else SpecC10.verdict recs finish finish obs
+          | _ => "bad-impl"
+        | [] => "bad-impl"
+      | [] => "bad-impl"
+    pure (m, p)
+  | [] => none
+
 def handle (cmd : String) (args impl : List String) : Option (String × String) :=
   match cmd with
   | "c10.pack" => handlePack args impl
   | "c10.marks" => handleMarks args impl
   | "c10.pipe" => handlePipe args impl
   | "c10.start" => handleStart args impl
+  | "c10.stop" => handleStop args impl
   | _ => none
 
 end FileD.DrvC10
